@@ -1,5 +1,5 @@
 import Mathlib.Algebra.Ring.Int.Defs
-import PtnModel.Proofs.OgRenameNode
+import PtnModel.Proofs.OgMerge
 /-!
 # C16 — operator-graph rewrites preserve the denoted operator and graph consistency
 
@@ -67,5 +67,44 @@ example : SValid exampleGraph ∧
     (exampleGraph.renameNodeId 5 (-8)).toOption.map (fun g' => (g'.nidTerminal, g'.denF [1, 2], g'.isConsistent))
       = some ((-8, 7), 2, true) :=
   ⟨exampleGraph_valid.1, by decide⟩
+
+/-- **Merging two mergeable edges** (`merge_edges`, both cases: two edges between the same pair of nodes, whose operators
+are added; two equal-operator edges from different single-output upstream nodes of equal charge, whose nodes are merged),
+partial: whenever the call succeeds on a structurally valid graph for two different edge ids, the result is
+structurally valid again (`structOk = true`), has the same terminals and denotes the same operator. The conditions
+asserted by the code are exactly what a successful call provides.
+*Remaining hypothesis:* `MergeTermOk` (if the surviving upstream node is a terminal, the absorbed node has no further
+upstream edges) -- without it the code produces a terminal node with edges in its own direction on graphs that contain an
+unconnected non-terminal node (reported). *Missing for the full clause:* the level clause `levelsOk` for the result. -/
+theorem merge_edges_partial (g g' : Graph κ) (eid1 eid2 : Int) (d : Bool) (h : SValid g) (hne : eid1 ≠ eid2)
+    (hT : MergeTermOk g eid1 eid2 d) (hr : g.mergeEdges eid1 eid2 d = .ok g') :
+    SValid g' ∧ g'.structOk = true ∧ g'.nidTerminal = g.nidTerminal ∧ ∀ w : Word, g'.denF w = g.denF w := by
+  obtain ⟨hv, ht, hd⟩ := mergeEdges_sem h hne hT hr
+  exact ⟨hv, hv.structOk, ht, hd⟩
+
+/-- non-vacuity: the two parallel edges 10, 11 of `exampleGraph` merge (direction 1: common head -2);
+the merged edge carries the operators of both -/
+example : SValid exampleGraph ∧ (10 : Int) ≠ 11 ∧
+    (exampleGraph.mergeEdges 10 11 true).toOption.map (fun g' => (g'.edges.map (·.1), g'.denF [1, 2], g'.denF [3, 2], g'.isConsistent))
+      = some ([10, 12], 2, 1, true) :=
+  ⟨exampleGraph_valid.1, by decide, by decide⟩
+
+/-- a graph on which the node-merging case applies: two equal-operator edges 20, 21 from the single-output nodes 1, 2 -/
+def exampleGraph2 : Graph ℤ :=
+  { nodes := [(0, ⟨0, [], [30, 31], 0⟩), (1, ⟨1, [30], [20], 0⟩), (2, ⟨2, [31], [21], 0⟩), (3, ⟨3, [20, 21], [], 0⟩)],
+    edges := [(30, ⟨30, (0, 1), [(1, 1)]⟩), (31, ⟨31, (0, 2), [(2, 3)]⟩), (20, ⟨20, (1, 3), [(5, 1)]⟩), (21, ⟨21, (2, 3), [(5, 1)]⟩)],
+    nidTerminal := (0, 3) }
+
+/-- non-vacuity of the node-merging case (nodes 1 and 2 are merged, 2 disappears; `MergeTermOk` holds as node 1 is not a terminal) -/
+example : Valid exampleGraph2 ∧ MergeTermOk exampleGraph2 20 21 true ∧
+    (exampleGraph2.mergeEdges 20 21 true).toOption.map (fun g' => (g'.nodes.map (·.1), g'.denF [1, 5], g'.denF [2, 5], g'.isConsistent))
+      = some ([0, 1, 3], 1, 3, true) := by
+  refine ⟨(valid_iff _).2 ⟨NoDup.of_noDupB (by decide), by decide⟩, ?_, by decide⟩
+  intro edge1 edge2 N2 h1 h2 _ ht _
+  have e1 : edge1 = ⟨20, (1, 3), [(5, 1)]⟩ := by
+    have : dGet? exampleGraph2.edges 20 = some ⟨20, (1, 3), [(5, 1)]⟩ := by decide
+    rw [this] at h1; exact (Option.some.inj h1).symm
+  subst e1
+  exact absurd ht (by decide)
 
 end Ptn.C16
